@@ -88,7 +88,7 @@ func run(r *vk.Run) {
 
 type op struct {
 	Kind   string `json:"kind"`             // create add update delete set-active change-active clear-active
-	Target string `json:"target,omitempty"` // a0..a3 = fixed ids, c0..c2 = n-th mode created with a generated id, ghost = never exists
+	Target string `json:"target,omitempty"` // a0..a3 = fixed ids, c0..c2 = n-th mode created with a generated id, ghost = never exists, empty = the id ""
 	Normal bool   `json:"normal,omitempty"`
 	Mask   string `json:"mask,omitempty"` // update: normal | title | empty (present, no paths) | none (= no mask, full replace)
 	AM     bool   `json:"allow_missing,omitempty"`
@@ -291,6 +291,9 @@ func (w *world) resolve(target string) string {
 			return w.created[j]
 		}
 		return "uncreated-" + target
+	}
+	if target == "empty" {
+		return "" // the id nobody has: only drawn for set-active / change-active (see genOp)
 	}
 	return target
 }
